@@ -26,6 +26,7 @@ import (
 
 	"verif/harness/ref"
 	"verif/harness/rig"
+	"verif/harness/seam"
 )
 
 // World is the model plus the driver.
@@ -893,6 +894,42 @@ func (w *World) Ack(subName string, ids []string) {
 	if !w.expectCode("C03", "Acknowledge", err, codes.OK) {
 		return
 	}
+	w.applyAck(ids, lo, hi)
+}
+
+// AckUnderFault acknowledges while the k-th statement the call issues (BEGIN,
+// each statement, COMMIT) fails with a driver error. An answer of OK is final
+// like any other; after an error the client does what clients do - it retries
+// (fault-free), and that answer counts.
+func (w *World) AckUnderFault(subName string, ids []string, k int) {
+	w.slot()
+	lo := w.now()
+	actor := fmt.Sprintf("faulty-ack-%d", w.opn())
+	req := &pubsubpb.AcknowledgeRequest{Subscription: subName, AckIds: ids}
+	seam.C.SetFault(&seam.Fault{Actor: actor, K: k, Mode: seam.FaultError})
+	_, err := w.E.Sub.Acknowledge(w.E.Actor(actor), req)
+	hit := seam.C.FaultHits() > 0
+	seam.C.SetFault(nil)
+	res := fmt.Sprintf("%s fault@%d hit=%v", code(err), k, hit)
+	if hit {
+		w.stat("ack_faults_hit", 1)
+		if err == nil {
+			w.stat("ack_ok_although_a_statement_failed", 1)
+		}
+	}
+	if err != nil {
+		_, err = w.E.Sub.Acknowledge(w.Ctx, req)
+		res += " retry=" + code(err).String()
+	}
+	hi := w.now()
+	w.rec("ack-fault", fmt.Sprintf("%s n=%d", subName, len(ids)), res)
+	if !w.expectCode("C03", "Acknowledge(retry after an injected storage error)", err, codes.OK) {
+		return
+	}
+	w.applyAck(ids, lo, hi)
+}
+
+func (w *World) applyAck(ids []string, lo, hi time.Time) {
 	for _, id := range ids {
 		d := w.ByAck[id]
 		if d == nil {
